@@ -96,7 +96,7 @@ fn any_small() -> usize {
 }
 
 #[allow(static_mut_refs)]
-fn setup(table: [Option<usize>; COLS], results: [genotype::Result; COLS], projection: Option<PartialProjection>) -> Reader {
+fn setup_with(table: [Option<usize>; COLS], results: [genotype::Result; COLS], projection: Option<PartialProjection>, stale_skipped: bool) -> Reader {
     unsafe {
         TABLE = table;
     }
@@ -107,7 +107,9 @@ fn setup(table: [Option<usize>; COLS], results: [genotype::Result; COLS], projec
     // left-overs of an earlier record (C11): non-zero counts and totals and one stale skipped entry.
     // (Concrete garbage: symbolic garbage multiplies the solver time by more than 10 and a missed
     // reset is just as visible with these values.)
-    let skipped = vec![(smp::Id(1), Skipped::Missing)];
+    // two kinds of reachable pre-state: after a record with a skipped sample (stale entry in the list) and
+    // after a complete record (empty list, totals still holding that record's chromosomes)
+    let skipped = if stale_skipped { vec![(smp::Id(1), Skipped::Missing)] } else { Vec::new() };
     Reader {
         reader: Box::new(mem),
         sample_map: smp::Map::default(),
@@ -116,6 +118,10 @@ fn setup(table: [Option<usize>; COLS], results: [genotype::Result; COLS], projec
         projection,
         skipped_samples: skipped,
     }
+}
+
+fn setup(table: [Option<usize>; COLS], results: [genotype::Result; COLS], projection: Option<PartialProjection>) -> Reader {
+    setup_with(table, results, projection, true)
 }
 
 /// oracle, from the statements of C01/C02/C08: per population ALT count and called chromosomes
@@ -165,7 +171,8 @@ const N: Option<usize> = None;
 /// states CBMC has to track), so the product is covered by a family of harnesses instead.
 fn check_no_projection(table: [Option<usize>; COLS], mut results: [genotype::Result; COLS], symcol: usize) {
     results[symcol] = any_result();
-    let mut reader = setup(table, results, None);
+    // alternate the two kinds of pre-state over the family
+    let mut reader = setup_with(table, results, None, symcol != 1);
     let (error, any_skipped, counts, _totals, n_skipped) = oracle(&results);
     match reader.read_site() {
         ReadStatus::Error(_) => assert!(error, "Error only if a selected column has a ploidy error"),
@@ -191,10 +198,10 @@ fn check_no_projection(table: [Option<usize>; COLS], mut results: [genotype::Res
 
 /// decision part (C02): which of Standard / Projected / InsufficientData a record gets, for a fixed
 /// target `to`, with one column taking every result and a dirty pre-state
-fn check_projection_decision(table: [Option<usize>; COLS], mut results: [genotype::Result; COLS], symcol: usize, to: [usize; POPS]) {
+fn check_projection_decision(table: [Option<usize>; COLS], mut results: [genotype::Result; COLS], symcol: usize, to: [usize; POPS], stale_skipped: bool) {
     results[symcol] = any_result();
     let proj = partial_with_dirty_buffer(Count(vec![to[0], to[1]]), Count(vec![1, 2]));
-    let mut reader = setup(table, results, Some(proj));
+    let mut reader = setup_with(table, results, Some(proj), stale_skipped);
     let (error, _any_skipped, counts, totals, _n) = oracle(&results);
     let exact = totals[0] == to[0] && totals[1] == to[1];
     let projectable = totals[0] >= to[0] && totals[1] >= to[1];
@@ -279,11 +286,11 @@ macro_rules! site_proj_harness {
     };
 }
 
-site_proj_harness!(k_site_projdec_aab_c0_to22, check_projection_decision([A, A, B], [G0, G2, G1], 0, [2, 2]));
-site_proj_harness!(k_site_projdec_aab_c2_to42, check_projection_decision([A, A, B], [G1, G0, G0], 2, [4, 2]));
-site_proj_harness!(k_site_projdec_aab_c1_to20, check_projection_decision([A, A, B], [G1, G0, MI], 1, [2, 0]));
-site_proj_harness!(k_site_projdec_baa_c1_to02, check_projection_decision([B, A, A], [G2, G0, MU], 1, [0, 2]));
-site_proj_harness!(k_site_projdec_nba_c0_to22, check_projection_decision([N, B, A], [ER, G1, G2], 0, [2, 2]));
+site_proj_harness!(k_site_projdec_aab_c0_to22, check_projection_decision([A, A, B], [G0, G2, G1], 0, [2, 2], true));
+site_proj_harness!(k_site_projdec_aab_c2_to42, check_projection_decision([A, A, B], [G1, G0, G0], 2, [4, 2], false));
+site_proj_harness!(k_site_projdec_aab_c1_to20, check_projection_decision([A, A, B], [G1, G0, MI], 1, [2, 0], true));
+site_proj_harness!(k_site_projdec_baa_c1_to02, check_projection_decision([B, A, A], [G2, G0, MU], 1, [0, 2], true));
+site_proj_harness!(k_site_projdec_nba_c0_to22, check_projection_decision([N, B, A], [ER, G1, G2], 0, [2, 2], false));
 site_proj_harness!(k_site_projval_aab_to21, check_projection_values([A, A, B], [G1, G2, G0], [2, 1], [3, 1]));
 site_proj_harness!(k_site_projval_baa_to12, check_projection_values([B, A, A], [G2, G1, G1], [1, 2], [0, 2]));
 site_proj_harness!(k_site_projval_aab_to02, check_projection_values([A, A, B], [MI, G1, G2], [0, 2], [1, 1]));
